@@ -1,1 +1,83 @@
-(* C10 -- theorems to be stated here. *)
+(* C10 -- seeking and position reporting are coherent with the keystream (CTR all flavours, BelT-CTR).
+   Positions are the pairs (nb, pos) of Wrapper_proofs.v; [byte_pos] is the byte offset a pair stands
+   for.  (1) a seek that the counter type can represent and that stays inside the keystream puts the
+   wrapper at the pair of byte offset p, from where [try_apply] (C08/C11) reads the keystream of that
+   position; (2) an unrepresentable block index is an error and nothing changes; (3) the reported
+   position is the byte offset, and an offset above the integer type's maximum is an error.
+   Seek targets inside block index 2^w - 1 are excluded by hypothesis ([below]): known finding F2 (C11). *)
+From BM Require Import BlockModes Plumbing Toy Ints Ctr Belt Stream Cts Stream_proofs Interp Interp_proofs
+  Wrapper_proofs Wrapper_inst.
+From Coq Require Import ZArith.
+
+Theorem C10_ctr_seek : forall cs be (C : cipher) (nonce : list N), cipher_wf C -> c_bs C = cs * length nonce ->
+  forall t nb wst p blk byte, CtrInv cs be C nonce nb wst ->
+  let K := kscore C (SCtr cs be) in
+  into_block_byte t (sc_ctr_bits K) p (sc_bs K) = Ok (blk, byte) ->
+  (byte = 0 -> upto (ctr_limit cs) blk) -> (byte <> 0 -> below (ctr_limit cs) blk) ->
+  exists wst', try_seek K t wst p = Ok wst' /\
+               CtrInv cs be C nonce (if Nat.eqb byte 0 then blk else (blk + 1)%N) wst' /\
+               wr_pos wst' = (if Nat.eqb byte 0 then sc_bs K else byte).
+Proof. intros. eapply ctr_seek_spec; eauto. Qed.
+Print Assumptions C10_ctr_seek.
+
+Theorem C10_belt_seek : forall (C : cipher) si, cipher_wf C -> c_bs C = 16 -> (si < pow2 128)%N ->
+  forall t nb wst p blk byte, BeltInv C si nb wst ->
+  let K := kscore C SBelt in
+  into_block_byte t (sc_ctr_bits K) p (sc_bs K) = Ok (blk, byte) ->
+  (byte = 0 -> upto belt_limit blk) -> (byte <> 0 -> below belt_limit blk) ->
+  exists wst', try_seek K t wst p = Ok wst' /\
+               BeltInv C si (if Nat.eqb byte 0 then blk else (blk + 1)%N) wst' /\
+               wr_pos wst' = (if Nat.eqb byte 0 then sc_bs K else byte).
+Proof. intros. eapply belt_seek_spec; eauto. Qed.
+Print Assumptions C10_belt_seek.
+
+(* the pair reached by seek(p), p >= 0, stands for byte offset p (block sizes are at most 255) *)
+Theorem C10_seek_lands_on_p : forall (St : Type) (K : score St), 0 < sc_bs K -> sc_bs K < 256 ->
+  forall t p blk byte, (0 <= p)%Z ->
+  into_block_byte t (sc_ctr_bits K) p (sc_bs K) = Ok (blk, byte) ->
+  byte_pos K (if Nat.eqb byte 0 then blk else (blk + 1)%N) (if Nat.eqb byte 0 then sc_bs K else byte) = p.
+Proof. intros St K H0 H1 t p blk byte Hp H. eapply seek_byte_pos; eauto. Qed.
+Print Assumptions C10_seek_lands_on_p.
+
+Theorem C10_seek_unrepresentable : forall (St : Type) (K : score St) t wst p,
+  into_block_byte t (sc_ctr_bits K) p (sc_bs K) = Err -> try_seek K t wst p = Err.
+Proof. intros. eapply try_seek_err; eauto. Qed.
+Print Assumptions C10_seek_unrepresentable.
+
+Theorem C10_ctr_position : forall cs be (C : cipher) (nonce : list N), cipher_wf C -> c_bs C = cs * length nonce ->
+  forall t nb wst, CtrInv cs be C nonce nb wst ->
+  let K := kscore C (SCtr cs be) in
+  match try_current_pos K t wst with
+  | Ok r => r = byte_pos K nb (wr_pos wst)
+  | Err => True
+  | Panic => False
+  end /\
+  ((sn_max t < byte_pos K nb (wr_pos wst))%Z -> try_current_pos K t wst = Err).
+Proof. intros. eapply ctr_current_pos_spec; eauto. Qed.
+Print Assumptions C10_ctr_position.
+
+Theorem C10_belt_position : forall (C : cipher) si, cipher_wf C -> c_bs C = 16 -> (si < pow2 128)%N ->
+  forall t nb wst, BeltInv C si nb wst ->
+  let K := kscore C SBelt in
+  match try_current_pos K t wst with
+  | Ok r => r = byte_pos K nb (wr_pos wst)
+  | Err => True
+  | Panic => False
+  end /\
+  ((sn_max t < byte_pos K nb (wr_pos wst))%Z -> try_current_pos K t wst = Err).
+Proof. intros. eapply belt_current_pos_spec; eauto. Qed.
+Print Assumptions C10_belt_position.
+
+(* reading advances the byte offset by the number of bytes read: the k-th byte read from (nb, pos)
+   is the keystream byte at byte offset byte_pos + k *)
+Theorem C10_bytes_are_positions : forall (St : Type) (K : score St), 0 < sc_bs K ->
+  forall n nb pos k c, 1 <= pos <= sc_bs K -> (pos < sc_bs K -> (1 <= nb)%N) ->
+  nth_error (cells_at K n nb pos) k = Some c ->
+  (Z.of_N (fst c) * Z.of_nat (sc_bs K) + Z.of_nat (snd c) = byte_pos K nb pos + Z.of_nat k)%Z.
+Proof. intros St K H n nb pos k c. now apply cells_byte_pos. Qed.
+Print Assumptions C10_bytes_are_positions.
+
+(* non-vacuity: a u64 seek to byte 37 of a 16-byte-block, 32-bit-counter cipher is (block 2, byte 5) *)
+Example C10_into_block_byte_example : into_block_byte SN_u64 32 37 16 = Ok (2%N, 5).
+Proof. reflexivity. Qed.
+Print Assumptions C10_into_block_byte_example.
